@@ -5,13 +5,28 @@
   module address. For every other packet the stack with the middleware and the stack without it return
   the same acknowledgement and the same context (ledger, external state, moves, events, calls, requests),
   and the module's own state is returned untouched.
-  The acknowledgement / timeout / send callbacks are not modelled: they are checked against a recording
-  fake by the correspondence stream only (DESIGN.md, trusted base).
+  The acknowledgement / timeout / send callbacks have no code in the module: `IBCMiddleware` embeds the
+  wrapped `IBCModule` and `ICS4Wrapper`, and Go promotes their methods. That this is so for the built code is
+  the coverage obligation `pin_only_recv_has_code` (regenerated on every run from the method table of the
+  type: a promoted method is a compiler-generated wrapper); that the promoted methods hand arguments and
+  results through unchanged is Go's embedding rule, checked against a recording fake by the stream.
 -/
 import Orbiter.Lemmas.Recv
 import Orbiter.Step
 namespace Orbiter.C07
 open Orbiter
+
+/-- Coverage obligation: of all the methods of the middleware type (value and pointer receiver), `OnRecvPacket` is the
+only one written in the package; the acknowledgement, timeout and channel-handshake callbacks and the ICS-4 methods
+(`SendPacket`, `WriteAcknowledgement`, `GetAppVersion`) are the embedded fields' own, promoted by the compiler. A method
+added to the type later — a new place where foreign traffic could be treated differently — breaks this. -/
+theorem pin_only_recv_has_code : Gen.middlewareOwnMethods = ["OnRecvPacket"] := by decide
+
+/-- …and the callbacks the property speaks of are all there. -/
+theorem pin_callbacks_promoted :
+    ∀ m ∈ ["OnAcknowledgementPacket", "OnTimeoutPacket", "SendPacket", "WriteAcknowledgement", "GetAppVersion",
+           "OnChanOpenInit", "OnChanOpenTry", "OnChanOpenAck", "OnChanOpenConfirm", "OnChanCloseInit", "OnChanCloseConfirm"],
+      m ∈ Gen.middlewareMethods ∧ m ∉ Gen.middlewareOwnMethods := by decide
 
 def orbiterAddressed (cfg : Cfg) (pkt : Packet) : Prop :=
   ∃ d, decFTPD pkt.data = some d ∧ accAddressFromBech32 cfg.hrp d.receiver = some cfg.orbAddr
